@@ -211,8 +211,8 @@ func (c *wireConn) Read(b []byte) (int, error) {
 	if d := c.delayRead; d > 0 {
 		c.delayRead = 0
 		if !c.rdl.IsZero() && time.Until(c.rdl) < d {
-			if u := time.Until(c.rdl); u > 0 {
-				time.Sleep(u)
+			if u := time.Until(c.rdl); u > -time.Millisecond {
+				time.Sleep(u + time.Millisecond) // a read that times out comes back a moment AFTER its deadline
 			}
 			return 0, os.ErrDeadlineExceeded
 		}
